@@ -144,6 +144,29 @@ func cacheRaceScope(r raceReport) bool {
 	return inCachePkgs(r.A) && inCachePkgs(r.B) && (touchesCache(r.A) || touchesCache(r.B))
 }
 
+// pipeRaceScope (C12): both accesses are made by datagram-processing code
+// (workers, decoders, encoders, mirror workers, producer), i.e. the innermost
+// program frame of neither access is one of the life-cycle functions main,
+// run, shutdown, the mirror dispatchers' set-up or option parsing. vFlow
+// orders start-up and shutdown by time, not by happens-before edges
+// (DESIGN.md 3.10): the stop flags, the mirror-enabled flags set once by the
+// dispatchers and the cache variables assigned in run() are formal races that
+// belong to no listed property; they are counted in the evidence as notes.
+func pipeRaceScope(r raceReport) bool {
+	for _, a := range []raceAccess{r.A, r.B} {
+		f, ok := programFrame(a)
+		if !ok {
+			return false
+		}
+		fn := shortFn(f.Fn)
+		if strings.HasSuffix(fn, ").run") || strings.HasSuffix(fn, ").shutdown") || strings.HasSuffix(fn, "Dispatcher") ||
+			strings.HasSuffix(fn, ".main") || strings.Contains(fn, "GetOptions") || strings.Contains(fn, ").run.func") && false {
+			return false
+		}
+	}
+	return true
+}
+
 // checkRaceLog turns new race reports into violations (in scope) or notes.
 func checkRaceLog(prop string, mark int64, out *RunOut, scope func(raceReport) bool) {
 	p := raceLogPath()
